@@ -603,6 +603,17 @@ class ScriptedFixture(_fixtures.Fixture):
                 self.addCleanup(live.clear)
                 self.addDetail(name, _content.Content(TEXT_CT if shape == "text" else BIN_CT, (lambda c=live: c)))
                 continue
+            if i == 0 and int(self._fid[1:]) % 2 == 1 and not spec["setup_raise"]:
+                # a fresh list every time, but of the fixture's own mutable buffers
+                bufs = [bytearray(c) for c in chunks]
+
+                def wipe(bufs=bufs):
+                    for b in bufs:
+                        b.clear()
+
+                self.addCleanup(wipe)
+                self.addDetail(name, _content.Content(TEXT_CT if shape == "text" else BIN_CT, (lambda c=bufs: list(c))))
+                continue
             self.addDetail(name, _content.Content(TEXT_CT if shape == "text" else BIN_CT,
                                                   (lambda c=chunks: list(c))))
         for i, r in enumerate(spec["cleanups"]):
